@@ -388,7 +388,8 @@ class Package:
                 cands += [u for u in m.units.values() if u.cls is not None and u.parent is None
                           and u.qualname.rsplit(".", 1)[-1] == call.func.attr]
             for u in cands:
-                if u.kind == kind and u.module is m and u.parent is None and not u.is_overload() \
+                if u.kind == kind and (u.module is m or u.module.short.startswith("_")) and u.parent is None \
+                        and not u.is_overload() \
                         and (u.qualname.rsplit(".", 1)[-1].startswith("_") or not self._is_public(u)):
                     if u not in found:
                         found.append(u)
